@@ -166,6 +166,12 @@ ANNOTATION_ROW_TEMPLATE = """    <TR>
 ANNOTATION_END_ROW = "    </TABLE>>"
 
 
+def _dot_quote(value):
+    """Returns a double-quoted DOT string for the value (backslashes and
+    double quotes escaped, so that no character can end the string early)."""
+    return '"%s"' % str(value).replace("\\", "\\\\").replace('"', '\\"')
+
+
 def htlm_link_if_uri(value):
     try:
         uri = value.uri
@@ -247,9 +253,9 @@ def prov_to_dot(
         def _add_bundle(bundle):
             count[2] += 1
             subdot = pydot.Cluster(
-                graph_name="c%d" % count[2], URL=f'"{bundle.identifier.uri}"'
+                graph_name="c%d" % count[2], URL=_dot_quote(bundle.identifier.uri)
             )
-            subdot.set_label('"%s"' % str(bundle.identifier))
+            subdot.set_label(_dot_quote(bundle.identifier))
             _bundle_to_dot(subdot, bundle)
             dot.add_subgraph(subdot)
             return subdot
@@ -259,7 +265,7 @@ def prov_to_dot(
             node_id = "n%d" % count[0]
             if use_labels:
                 if record.label == record.identifier:
-                    node_label = f'"{record.label}"'
+                    node_label = _dot_quote(record.label)
                 else:
                     # Fancier label if both are different. The label will be
                     # the main node text, whereas the identifier will be a
@@ -270,11 +276,11 @@ def prov_to_dot(
                         f'{record.identifier}</font>>'
                     )
             else:
-                node_label = f'"{record.identifier}"'
+                node_label = _dot_quote(record.identifier)
 
             uri = record.identifier.uri
             style = DOT_PROV_STYLE[record.get_type()]
-            node = pydot.Node(node_id, label=node_label, URL='"%s"' % uri, **style)
+            node = pydot.Node(node_id, label=node_label, URL=_dot_quote(uri), **style)
             node_map[uri] = node
             dot.add_node(node)
 
@@ -285,11 +291,11 @@ def prov_to_dot(
         def _add_generic_node(qname, prov_type=None):
             count[0] += 1
             node_id = "n%d" % count[0]
-            node_label = f'"{qname}"'
+            node_label = _dot_quote(qname)
 
             uri = qname.uri
             style = GENERIC_NODE_STYLE[prov_type] if prov_type else DOT_PROV_STYLE[0]
-            node = pydot.Node(node_id, label=node_label, URL='"%s"' % uri, **style)
+            node = pydot.Node(node_id, label=node_label, URL=_dot_quote(uri), **style)
             node_map[uri] = node
             dot.add_node(node)
             return node
